@@ -113,8 +113,8 @@ type Script struct {
 	Steps       [nSteps]Action
 	ExitStatus  int
 	ModSuffix   string // the root Thrift file's path below the sandbox, e.g. "/thrift/a/root.thrift"
-	ByteWrites  bool // reply in 1-byte writes
-	Helper      bool // the plugin starts a daemon that inherits its stderr and outlives it
+	ByteWrites  bool   // reply in 1-byte writes
+	Helper      bool   // the plugin starts a daemon that inherits its stderr and outlives it
 	// generate reply
 	Files  []GenFile
 	GenErr bool // conforming: the generator returns an error
@@ -124,8 +124,8 @@ type Script struct {
 // files: in the Directory the request gives for the module of the root Thrift file
 // (ModSuffix identifies that module); Path then holds the path this must come to.
 type GenFile struct {
-	Dyn  bool
-	Base string
+	Dyn     bool
+	Base    string
 	Path    string
 	Content string
 }
